@@ -36,7 +36,20 @@ Disambiguator::Disambiguator(SyntaxTree* tree)
 
 bool Disambiguator::disambiguate()
 {
-    visit(tree_->rootNode());
+    // The root of a fragment (an expression or a statement that is parsed on
+    // its own) may itself be an ambiguity node.
+    SyntaxNode* rootNode = tree_->rootNode();
+    if (rootNode && rootNode->asAmbiguousCastOrBinaryExpression()) {
+        visitMaybeAmbiguousExpression(rootNode);
+        tree_->resetRootNode(rootNode);
+    }
+    else if (rootNode && rootNode->asAmbiguousExpressionOrDeclarationStatement()) {
+        visitMaybeAmbiguousStatement(rootNode);
+        tree_->resetRootNode(rootNode);
+    }
+    else {
+        visit(rootNode);
+    }
     return inconclusiveDisambigs_.empty();
 }
 
